@@ -587,8 +587,9 @@ class Engine(object):
         o = Obj(klass, {}, origin="param:" + name)
         for fname, ftype in schema.get("fields", {}).items():
             o.fields[fname] = self.fresh_of_type(ex, ftype, "%s.%s" % (name, fname))
-            if isinstance(o.fields[fname], (PList, PDict, Obj)) and getattr(o.fields[fname], "origin", None) is None:
-                o.fields[fname].origin = "param:%s.%s" % (name, fname)
+            # whatever the pre-state object holds belongs to the pre-state: it is not fresh, and writing to it is a
+            # write to (a part of) the parameter
+            taint(o.fields[fname], "param:%s.%s" % (name, fname))
         inv = schema.get("inv")
         if inv:
             ex.ctx.assume(ex.spec_bool(inv, {"self": o}))
@@ -1215,6 +1216,7 @@ class Engine(object):
                         for pp in parts[1:-1]:
                             o = o.items[int(pp)] if isinstance(o, PList) else o.fields[pp]
                         o.fields[parts[-1]] = self.fresh_of_type(ex, ty, path, env)
+                        taint(o.fields[parts[-1]], "param:" + ".".join(pp for pp in parts if not pp.isdigit()))
                 if isinstance(split_expr, dict) and split_expr.get("alias"):
                     # this case is about a call in which one argument IS an object reachable from another
                     for pname, path in split_expr["alias"].items():
